@@ -195,6 +195,10 @@ const TEMPLATES: [&[u8]; 34] = [
     b"{d}",
 ];
 
+pub fn template_for(rng: &mut Rng) -> Vec<u8> {
+    template(rng)
+}
+
 fn template(rng: &mut Rng) -> Vec<u8> {
     match rng.usize(12) {
         0 => vec![b'a'; *rng.pick(&[255usize, 256, 4096, 65535])],
@@ -887,16 +891,16 @@ fn corrupt_tail(p: &mut Vec<u8>, rng: &mut Rng) -> &'static str {
 // ---------------------------------------------------------------- running
 
 #[derive(Default)]
-struct IStats {
-    calls: u64,
-    ok: u64,
-    err: u64,
-    labels: Vec<(&'static str, String)>,
-    counts: BTreeMap<String, u64>,
-    opened: bool,
+pub struct IStats {
+    pub calls: u64,
+    pub ok: u64,
+    pub err: u64,
+    pub labels: Vec<(&'static str, String)>,
+    pub counts: BTreeMap<String, u64>,
+    pub opened: bool,
 }
 impl IStats {
-    fn res<T, E: std::fmt::Debug>(&mut self, kind: &'static str, r: &Result<T, E>) {
+    pub fn res<T, E: std::fmt::Debug>(&mut self, kind: &'static str, r: &Result<T, E>) {
         self.calls += 1;
         match r {
             Ok(_) => self.ok += 1,
@@ -915,7 +919,7 @@ impl IStats {
             }
         }
     }
-    fn count(&mut self, k: &str, n: u64) {
+    pub fn count(&mut self, k: &str, n: u64) {
         *self.counts.entry(k.to_string()).or_default() += n;
     }
 }
@@ -1177,7 +1181,7 @@ pub fn run_item_with(ctx: &mut Ctx, i: usize, seed: u64, real_only: bool) {
     ctx.sample_by_kind("ift-tuple", json!({"item": i, "shape": t.shape, "font_len": t.font.len(), "patch_seed": t.patch_seed.to_string()}));
 }
 
-fn absorb(ctx: &mut Ctx, s: &IStats) {
+pub fn absorb(ctx: &mut Ctx, s: &IStats) {
     ctx.evals(s.calls);
     ctx.count("library_calls", s.calls);
     ctx.count("results_ok_or_some", s.ok);
